@@ -17,7 +17,20 @@ DENVER = os.path.join(REPO, 'nrel/hive/resources/scenarios/denver_downtown/road_
 @functools.lru_cache(maxsize=1)
 def denver():
     g = nx.node_link_graph(json.load(open(DENVER)), edges='links')
-    return OSMRoadNetwork(g)
+    w = input_weights(g)
+    rn = OSMRoadNetwork(g)
+    rn._verif_input_weights = w
+    return rn
+
+def input_weights(g):
+    """travel time per junction pair as the INPUT graph states it (the fastest of parallel carriageways), taken before the road
+    network object is built, so that the oracle does not depend on what the constructor keeps of the graph"""
+    w = {}
+    for u, v, d in g.edges(data=True):
+        x = Fraction(d['travel_time'])
+        if (u, v) not in w or x < w[(u, v)]:
+            w[(u, v)] = x
+    return w
 
 def gen_graph(rng):
     n = rng.randint(5, 10)
@@ -39,9 +52,22 @@ def gen_graph(rng):
             add(a, b)
     if not nx.is_strongly_connected(g):
         return gen_graph(rng)
-    return OSMRoadNetwork(g)
+    # parallel carriageways between two junctions (a MultiDiGraph has them): a slower second edge next to an existing one — the
+    # link table and the search both go by the first, fastest one.  Drawn from a stream of its own.
+    rng2 = random.Random(f'parallel|{n}|{g.number_of_edges()}|{sorted(g.edges())[:3]}')
+    for (u, v) in sorted(set((u, v) for u, v in g.edges())):
+        if rng2.random() < 0.25:
+            d0 = g.get_edge_data(u, v)[0]
+            slow = max(3.0, d0['speed_kmph'] / rng2.choice([2.0, 5.0, 10.0]))
+            g.add_edge(u, v, length=d0['length'], speed_kmph=slow, travel_time=d0['length'] / 1000.0 / slow * 3600.0)
+    w = input_weights(g)
+    rn = OSMRoadNetwork(g)
+    rn._verif_input_weights = w
+    return rn
 
 def weights(rn):
+    if getattr(rn, '_verif_input_weights', None) is not None:
+        return dict(rn._verif_input_weights)
     w = {}
     for u, v, d in rn.graph.edges(data=True):
         x = Fraction(d['travel_time'])
